@@ -96,7 +96,10 @@ def make_mutant(e, mseed: int):
         return None
     ni, ci, row, node, m = sel
     fresh = random.Random(mseed + 1).random() < 0.5
-    mut = m if node is e else eqterm.rebuild(e, subst={id(node): m}, fresh=fresh)
+    try:
+        mut = m if node is e else eqterm.rebuild(e, subst={id(node): m}, fresh=fresh)
+    except (AssertionError, ValueError, TypeError):
+        return None      # the mutated node is rejected by an enclosing constructor
     return row, mut, {"node": ni, "candidate": ci, "fresh": fresh}
 
 
